@@ -25,8 +25,8 @@ ASSUMPTIONS = [
     'Rp+dz0/2+z_j+dz_j/2; new: shells at layer boundaries, tangent at mid-layer); a re-discretisation must update them',
     'the oracle takes each contribution\'s prepared per-layer sigma as input (its correctness is C03/C04/C19)',
 ]
-_Q = {'abs': 120, 'mono': 25, 'big': 4, 'rerun': 60, 'several': 30, 'components': 25}
-_T = {'abs': 2500, 'mono': 600, 'big': 60, 'rerun': 1200, 'several': 500, 'components': 400}
+_Q = {'abs': 120, 'mono': 25, 'big': 4, 'long': 2, 'rerun': 60, 'several': 30, 'components': 25}
+_T = {'abs': 2500, 'mono': 600, 'big': 60, 'long': 30, 'rerun': 1200, 'several': 500, 'components': 400}
 BUDGET = {
     'quick': [dict(name='boundscheck', env={'NUMBA_BOUNDSCHECK': '1'}, shards=4, cases=_Q)],
     'thorough': [dict(name='boundscheck', env={'NUMBA_BOUNDSCHECK': '1'}, shards=16, cases=_T),
@@ -40,7 +40,7 @@ REQUIRED = dict(monitors=['chords', 'exp(-tau)', 'depth', 'depth>=bare', 'depth<
                          'contrib:FlatMie', 'contrib:LeeMie', 'nlayers:2', 'rerun:evaluated-after-change',
                          'fault:fired:temperature', 'fault:fired:chemistry', 'fault:fired:contribution', 'fault:fired:pressure',
                          'several:evaluation-judged', 'wn-dtype:i', 'components:judged', 'T-route:mixin', 'chemistry:makefree+file',
-                         'rerun:deepcopy', 'rerun:original-judged-after-its-copy-was-used', 'components:live-model-judged', 'rerun:planet-radius-given-in-other-units'])
+                         'rerun:deepcopy', 'rerun:original-judged-after-its-copy-was-used', 'components:live-model-judged', 'rerun:planet-radius-given-in-other-units', 'grid:thousands-of-points'])
 TOL = 1e-10
 CUT = float(np.exp(-10.0))
 
@@ -318,6 +318,14 @@ def wl_big(ctx, rng):
     return wl_abs(ctx, rng, nlayers=int(rng.choice([60, 100])), nwn=int(rng.integers(3, 12)))
 
 
+def wl_long(ctx, rng):
+    """Spectral grids well above what small cases use (thousands to tens of thousands of points, never a round
+    number): blocked or chunked loops over wavenumber have a last, partial block."""
+    n = int(10 ** rng.uniform(3.62, 4.5)) | 1
+    ctx.observe('grid:thousands-of-points')
+    return wl_abs(ctx, rng, nlayers=int(rng.choice([2, 3, 5, 8])), nwn=n)
+
+
 def wl_mono(ctx, rng):
     """Scaling every cross-section up never lowers the depth (to within the cut-off); transparent tables give bare."""
     spec = make_case(rng, magnitude=['thin', 'mixed', 'saturating'][rng.integers(0, 3)])
@@ -527,7 +535,7 @@ def wl_components(ctx, rng):
     ctx.observe('components:judged')
 
 
-WORKLOADS = {'abs': wl_abs, 'mono': wl_mono, 'big': wl_big, 'rerun': wl_rerun, 'several': wl_several,
+WORKLOADS = {'abs': wl_abs, 'mono': wl_mono, 'big': wl_big, 'long': wl_long, 'rerun': wl_rerun, 'several': wl_several,
              'components': wl_components}
 
 LEVEL_TEXT = ('Exploration by runtime monitoring: every TransmissionModel.path_integral call made by the workload is '
